@@ -125,6 +125,23 @@ def check_properties_file(ctx, fname):
     return ok, out
 
 
+def coqchk_properties(ctx):
+    """thorough tier: re-check the compiled property file and everything it depends on with the independent checker and
+    record the axioms it reports"""
+    mod = "Verif.Properties_%s" % ctx.prop
+    if not os.path.exists(os.path.join(COQ, "Properties_%s.vo" % ctx.prop)):
+        return
+    rc, out = run(["coqchk", "-silent", "-o", "-R", COQ, "Verif", mod], cwd=COQ, timeout=3000)
+    axioms = ""
+    if "* Axioms:" in out:
+        axioms = " ".join(out.split("* Axioms:")[1].split("* Constants")[0].split())
+    ctx.coverage["coqchk"] = {"ok": rc == 0, "axioms": axioms}
+    ctx.trusted.add("coqchk -o over %s: %s; axioms: %s" % (mod, "accepted" if rc == 0 else "FAILED", axioms or "?"))
+    if rc != 0:
+        rp = write_replay(ctx, "coqchk", {"kind": "obligation", "theorem_or_correspondence": "coqchk " + mod, "output": out[-4000:]})
+        ctx.violations.append({"match": "coqchk", "replay": rp, "what": "coqchk rejects %s" % mod, "no_input": True})
+
+
 # ---------------------------------------------------------------- Go harness
 def harness_modfile(ctx):
     """a go.mod for the harness module that points at the tree under test; used with -modfile so /verif is not written"""
